@@ -994,8 +994,12 @@ pub fn sample_one<S: Strategy>(strategy: &S, seed: u64) -> S::Value {
 	strategy.new_tree(&mut runner).expect("strategy must generate").current()
 }
 
-/// Watchdog: exit 2 if the whole check takes longer than `secs`.
+/// Watchdog: exit 2 if the whole check takes longer than `secs` (thorough tier: three times
+/// that - the work of a tier is fixed, so on a machine that is busy with other jobs a thorough
+/// run may take several times its usual wall time without anything being wrong; genuine hangs
+/// are recognised by the checks themselves, this is only the last resort).
 pub fn watchdog(secs: u64) {
+	let secs = if std::env::args().any(|a| a == "thorough") { secs * 3 } else { secs };
 	std::thread::spawn(move || {
 		std::thread::sleep(std::time::Duration::from_secs(secs));
 		eprintln!("MACHINERY-ERROR watchdog: check exceeded {secs} s (reported as inconclusive, not as a violation)");
